@@ -95,7 +95,7 @@ EMPTY = Val()
 
 class Obj:
     __slots__ = ("oid", "cls", "region", "fields", "elem", "keys", "copy_of", "shallow", "site", "stamp", "epoch",
-                 "owner", "label", "dictkeys")
+                 "owner", "label", "dictkeys", "mustkeys")
 
     def __init__(self, oid, cls, region, site=None, stamp=(), epoch=0, label=None):
         self.oid = oid
@@ -112,6 +112,7 @@ class Obj:
         self.owner = None           # (parent oid, field) recorded at first store into a field
         self.label = label
         self.dictkeys = None        # for dict displays with constant keys: {const: Val}
+        self.mustkeys = {}          # constant keys that are definitely present (assigned on every path): key -> Val
 
     def clone_shell(self):
         o = Obj(self.oid, self.cls, self.region, self.site, self.stamp, self.epoch, self.label)
@@ -122,6 +123,7 @@ class Obj:
         o.shallow = self.shallow
         o.owner = self.owner
         o.dictkeys = dict(self.dictkeys) if self.dictkeys is not None else None
+        o.mustkeys = dict(self.mustkeys)
         return o
 
     def __repr__(self):
@@ -174,6 +176,7 @@ class Heap:
                     o1.fields[f] = join(v1, v2)
             o1.elem = join(o1.elem, o2.elem)
             o1.keys = join(o1.keys, o2.keys)
+            o1.mustkeys = {k: join(v, o2.mustkeys[k]) for k, v in o1.mustkeys.items() if k in o2.mustkeys}
             if o1.dictkeys is not None and o2.dictkeys is not None:
                 o1.dictkeys = {k: join(o1.dictkeys.get(k), o2.dictkeys.get(k))
                                for k in set(o1.dictkeys) | set(o2.dictkeys)}
